@@ -104,7 +104,10 @@ class ExprMixin:
 
     def _e_Name(self, e, path):
         if e.id in path.env:
-            return path.env[e.id]
+            v = path.env[e.id]
+            if isinstance(v, sv.SPy) and v.what == "alias":
+                return self.eval(v.payload, path)      # a local that names a container living in the heap: read it where it lives
+            return v
         if e.id in ("True", "False", "None"):
             return self.const({"True": True, "False": False, "None": None}[e.id])
         mod = self.frames[-1].module
